@@ -29,8 +29,14 @@ fn safe_join(root: &Path, rel: &str) -> Option<PathBuf> {
 }
 
 fn tmp_of(dst: &Path) -> PathBuf {
+    // One staging file per writer. Servers for other clients are separate
+    // processes on the same tree, so a name derived from `dst` alone would be
+    // shared: two concurrent Puts of one path truncated and interleaved each
+    // other's bytes, and the renamed file matched neither verified hash.
+    static SEQ: std::sync::atomic::AtomicU64 = std::sync::atomic::AtomicU64::new(0);
+    let n = SEQ.fetch_add(1, std::sync::atomic::Ordering::Relaxed);
     let mut s = dst.as_os_str().to_owned();
-    s.push(".copia-tmp");
+    s.push(format!(".{}.{n}.copia-tmp", std::process::id()));
     PathBuf::from(s)
 }
 
